@@ -72,11 +72,11 @@ class TTBCR(AbstractRegister):
 
     @property
     def orgn0(self):
-        return self[11:9]
+        return self[11:10]
 
     @orgn0.setter
     def orgn0(self, orgn0):
-        self[11:9] = orgn0
+        self[11:10] = orgn0
 
     @property
     def irgn0(self):
